@@ -8,6 +8,11 @@ ids = [p["id"] for p in props]
 HOOK_COMMITS = ["332865e1b", "bf49db00e", "0b99e4fc0", "68bfb6d5a"]
 
 CHECKS = {
+ "C17": dict(
+   level="exploration", design="§4 C17",
+   technique="runtime monitoring: RFC-4180 reference oracle (Python csv configured with the dialect/header decision reported by hook H3) over executions of read_csv; chunking-invariance monitor (one file under ChaosFs read sizes 1..4097, Pending, batch sizes, partitions must give identical rows)",
+   text="Generated CSV/TSV files over delimiter x quote x header x LF/CRLF x quoting policy x final newline x column kinds (ints, floats, booleans in all spellings, mixed, text with embedded delimiters/quotes/CR/LF/multi-byte characters) x sizes below and above the 4096-byte inference sample are read 5-9 times each under different read chunkings, batch sizes and partition counts. Rows must equal Python's csv parse under the reported dialect (empty field = NULL, values parsed by the inferred type), column names the header record, inferred types the narrowest of BOOLEAN<BIGINT<DOUBLE<TEXT for files inside the sample, and all read configurations of a file must agree.",
+   note="Files that are ragged under the reported dialect, or whose later rows do not fit the type inferred from the sample, have no specified outcome; only consistency across chunkings is required for them. Needs hook H3 (csv_infer note)."),
  "C19": dict(
    level="fault_enumeration", design="§4 C19",
    technique="runtime monitoring with fault injection: every truncation, enumerated byte corruptions of all metadata regions and targeted metadata lies of small valid files (written by the independent writer) are fed to the real reader, one engine per mutant, under CPU-time and address-space limits; outcome-class monitor (rows/error vs panic, abort, allocation failure, non-termination) with journal attribution",
